@@ -11,7 +11,6 @@ import (
 	"errors"
 	"fmt"
 	"net/http"
-	"os"
 	"sync"
 	"sync/atomic"
 	"time"
@@ -168,27 +167,33 @@ func openWorld(path string, up bool) (*world, error) {
 	return w, nil
 }
 
+// hangs counts stop sequences that did not return (see shutdown).
+var hangs atomic.Int64
+
 // shutdown is the clean stop of server.Close: drain, stop all tasks, close the services,
 // close the TaskMaster, close the storage.  The Bolt file stays.
-func (w *world) shutdown() {
-	w.tm.Drain()
-	w.tm.StopTasks()
-	w.ts.Close()
-	w.tm.Close()
-	w.store.CloseBolt()
-}
-
-// kill is what a crash leaves behind as far as this process is concerned: the goroutines
-// of the executing tasks are stopped (they are not part of the crashed process image, the
-// file copy is), nothing else is written.  Used for worlds whose file is no longer needed.
-func (w *world) kill(removeFile bool) {
+//
+// A stop sequence that does not return is a liveness failure of the code under test (C07 territory),
+// not a C14 verdict; but it must not take the evidence recorded so far with it.  After 30 s the world
+// is abandoned (its goroutines and file handle leak), the hang is counted, and the check decides:
+// a violation found in the recorded traces stands, otherwise the run is reported as broken.
+func (w *world) shutdown() bool {
 	w.onTx = nil
-	w.tm.StopTasks()
-	w.ts.Close()
-	w.tm.Close()
-	w.store.CloseBolt()
-	if removeFile {
-		os.Remove(w.path)
+	done := make(chan struct{})
+	go func() {
+		w.tm.Drain()
+		w.tm.StopTasks()
+		w.ts.Close()
+		w.tm.Close()
+		w.store.CloseBolt()
+		close(done)
+	}()
+	select {
+	case <-done:
+		return true
+	case <-time.After(30 * time.Second):
+		hangs.Add(1)
+		return false
 	}
 }
 
